@@ -383,6 +383,30 @@ func installLibStubs(e *Engine) {
 		e.noteAssumption("numeric tokens: a field is an opaque non-empty string; strconv.ParseInt/ParseFloat return the declared value or an error (strconv's own text semantics are a contract, not encoded)")
 		return s
 	}
+	S["verif:verifIntTokenOf"] = func(e *Engine, st *State, c *callInfo, a []Value) Value {
+		name := mustConcreteStr(a[0], "verifIntTokenOf")
+		s := &StrV{B: make([]*Term, 2), Len: InputVar(name+".len", 64)}
+		for i := range s.B {
+			s.B[i] = Fresh(name+".b", 8)
+		}
+		st.assume(And(Ule(BVu(1, 64), s.Len), Ule(s.Len, BVu(2, 64))))
+		s.Tok = &tokInfo{IntOK: InputBool(name + ".ok"), IntVal: argTerm(a[1]), FloatOK: FreshBool(name + ".fok"), FloatBits: Fresh(name+".fbits", 64)}
+		s.Tok.IntVal = Ite(s.Tok.IntOK, s.Tok.IntVal, BVu(0, 64))
+		e.noteAssumption("numeric tokens: a field is an opaque non-empty string; strconv.ParseInt/ParseFloat return the declared value or an error (strconv's own text semantics are a contract, not encoded)")
+		return s
+	}
+	S["verif:verifFloatTokenOf"] = func(e *Engine, st *State, c *callInfo, a []Value) Value {
+		name := mustConcreteStr(a[0], "verifFloatTokenOf")
+		s := &StrV{B: make([]*Term, 2), Len: InputVar(name+".len", 64)}
+		for i := range s.B {
+			s.B[i] = Fresh(name+".b", 8)
+		}
+		st.assume(And(Ule(BVu(1, 64), s.Len), Ule(s.Len, BVu(2, 64))))
+		s.Tok = &tokInfo{FloatOK: InputBool(name + ".ok"), FloatBits: argTerm(a[1]), IntOK: FreshBool(name + ".iok"), IntVal: Fresh(name+".ival", 64)}
+		st.assume(Or(s.Tok.FloatOK, Eq(s.Tok.FloatBits, BVu(0, 64)))) // (0, err) contract: the declared value of an unparseable token is 0
+		e.noteAssumption("numeric tokens: a field is an opaque non-empty string; strconv.ParseInt/ParseFloat return the declared value or an error (strconv's own text semantics are a contract, not encoded)")
+		return s
+	}
 	S["verif:verifFloatToken"] = func(e *Engine, st *State, c *callInfo, a []Value) Value {
 		name := mustConcreteStr(a[0], "verifFloatToken")
 		s := &StrV{B: make([]*Term, 2), Len: InputVar(name+".len", 64)}
@@ -421,7 +445,10 @@ func installLibStubs(e *Engine) {
 				ok = And(ok, Slt(val, lim), Sle(Neg(lim), val))
 			}
 		}
-		return &TupleV{E: []Value{Ite(ok, val, BVu(0, 64)), errIf(Not(ok), e.newError(st, "strconv: parse error").(*IfaceV))}}
+		if s.Tok == nil {
+			val = Ite(ok, val, BVu(0, 64))
+		}
+		return &TupleV{E: []Value{val, errIf(Not(ok), e.newError(st, "strconv: parse error").(*IfaceV))}}
 	}
 	S["strconv.ParseInt"] = parseInt
 	S["strconv.ParseUint"] = parseInt
@@ -432,8 +459,9 @@ func installLibStubs(e *Engine) {
 			ok, val = s.Tok.FloatOK, s.Tok.FloatBits
 		} else {
 			ok, val = FreshBool("parsefloat.ok"), Fresh("parsefloat.val", 64)
+			val = Ite(ok, val, BVu(0, 64))
 		}
-		return &TupleV{E: []Value{Ite(ok, val, BVu(0, 64)), errIf(Not(ok), e.newError(st, "strconv: parse error").(*IfaceV))}}
+		return &TupleV{E: []Value{val, errIf(Not(ok), e.newError(st, "strconv: parse error").(*IfaceV))}}
 	}
 	S["strconv.Itoa"] = func(e *Engine, st *State, c *callInfo, a []Value) Value { return strConst("<itoa>") }
 	S["strconv.FormatFloat"] = func(e *Engine, st *State, c *callInfo, a []Value) Value { return strConst("<float>") }
